@@ -456,6 +456,14 @@ func runLinzMap(a *args, res *result) {
 			continue
 		}
 		r := newRng(a.seed, uint64(i)*8+3)
+		if i%64 == 21 {
+			kind := "MapOf[string,val]"
+			if a.prop == "C03" || (a.prop != "C04" && a.prop != "C10" && r.chance(0.5)) {
+				kind = "Map"
+			}
+			longKeyStorm(r, res, i, kind)
+			continue
+		}
 		if i%12 == 5 {
 			sp := mapSpec{Flavor: pick(r, flavors), Hint: noHint, NKeys: 2048}
 			if sp.Flavor != "Map" && len(hashers) > 0 && r.chance(0.3) {
